@@ -30,7 +30,11 @@
 // size == --above threshold, --fixup attribute variant, nested .gitattributes,
 // tag of a tag, LFS file that only a merge commit introduces, --exclude=dir/**
 // over an existing LFS file) when the failing commit/path carries it, else the
-// mode / path kind. VERIF_C12_CASE=<i> runs one case, VERIF_C12_KEEP=1 keeps
+// mode / path kind. On top of the 12-way rotation every tier appends "LFS
+// adopted midway" cases (midway.go): histories whose later commits are already
+// what the import would produce, migrated by import --include=<tracked
+// pattern> / import --fixup and then exported again (coordinates
+// lfs-adopted-midway/import-include, /fixup, /export). VERIF_C12_CASE=<i> runs one case, VERIF_C12_KEEP=1 keeps
 // its scratch directory (debugging / replay aid).
 //
 // Weakest-reading choices (not judged): reflogs, refs/original, unreachable
@@ -59,7 +63,7 @@ import (
 
 type caseSpec struct {
 	Idx      int
-	Mode     string // import-include import-above import-all import-fixup import-no-rewrite export roundtrip
+	Mode     string // import-include import-above import-all import-fixup import-no-rewrite export roundtrip midway-include midway-fixup
 	RefSel   string // everything default default-remote include-ref branch-args
 	Sel      selection
 	AboveArg string
@@ -265,6 +269,69 @@ func plan(run *evid.Run, idx int) *caseSpec {
 	return s
 }
 
+// nBase is the number of cases of the 12-way rotation; the indices from nBase on are the
+// "LFS adopted midway" cases.
+var nBase int
+
+var midwayCombos = []struct{ mode, refsel string }{
+	{"midway-include", "everything"},
+	{"midway-fixup", "default"},
+	{"midway-include", "default"},
+	{"midway-fixup", "everything"},
+	{"midway-include", "include-ref"},
+}
+
+// planMidway: k-th "LFS adopted midway" case. (import variant, ref selection) and the tracked
+// pattern rotate with k and the seed, the shape of the history is drawn from the PRNG.
+func planMidway(run *evid.Run, idx, k int) *caseSpec {
+	r := rand.New(rand.NewSource(run.Seed*1000003 + int64(idx)*7919 + 12))
+	s := &caseSpec{Idx: idx, r: r, HeadPick: 100}
+	rot := int(run.Seed % 97)
+	cb := midwayCombos[(rot+k)%len(midwayCombos)]
+	s.Mode, s.RefSel = cb.mode, cb.refsel
+	mo := &MidwayOpt{
+		Pattern:    midwayPatterns[(rot+k%len(midwayCombos)+k/len(midwayCombos))%len(midwayPatterns)],
+		Post:       3 + r.Intn(4),
+		Legacy:     r.Intn(2) == 0,
+		OtherAttrs: r.Intn(3) == 0,
+		Merge:      r.Intn(2) == 0,
+	}
+	if s.Mode == "midway-fixup" {
+		// --fixup only has something to do where a file is raw although Git says filter=lfs
+		mo.Pre, mo.Mistakes = r.Intn(3), 1+r.Intn(2)
+		s.Trigger = "lfs-adopted-midway/fixup"
+	} else {
+		mo.Pre, mo.Mistakes = 1+r.Intn(3), []int{0, 0, 1}[r.Intn(3)]
+		s.Trigger = "lfs-adopted-midway/import-include"
+	}
+	s.Sel = selection{Include: []string{mo.Pattern}}
+	s.Gen.Midway = mo
+	return s
+}
+
+// midwayRefArgs: ref selection of a midway case; the same arguments serve the import and the export.
+func (c *caseCtx) midwayRefArgs(o *op) []string {
+	switch c.spec.RefSel {
+	case "everything":
+		o.Everything = true
+		return []string{"--everything"}
+	case "default":
+		o.IncludeRefs = []string{"refs/heads/main"} // the checked-out branch; there is no remote
+		return nil
+	case "include-ref":
+		o.IncludeRefs = []string{"refs/heads/main"}
+		args := []string{"--include-ref=refs/heads/main"}
+		for _, b := range c.gen.BrO[1:] {
+			if c.spec.r.Intn(2) == 0 {
+				o.IncludeRefs = append(o.IncludeRefs, "refs/heads/"+b)
+				args = append(args, "--include-ref=refs/heads/"+b)
+			}
+		}
+		return args
+	}
+	panic("unknown refsel " + c.spec.RefSel)
+}
+
 type caseCtx struct {
 	run   *evid.Run
 	env   *sbx.Env
@@ -273,6 +340,8 @@ type caseCtx struct {
 	cmds  []string
 	nviol int
 	extra map[string][]string // labels of commits created by an earlier op (round trip)
+	// pathTrig, when set, is the coordinate path-level failures of the current command belong to
+	pathTrig string
 }
 
 func (c *caseCtx) labelsOf(sha string) []string {
@@ -421,7 +490,12 @@ func selArgs(s selection) []string {
 }
 
 func runCase(run *evid.Run, idx int) *caseCtx {
-	spec := plan(run, idx)
+	var spec *caseSpec
+	if idx >= nBase {
+		spec = planMidway(run, idx, idx-nBase)
+	} else {
+		spec = plan(run, idx)
+	}
 	env := sbx.New()
 	if os.Getenv("VERIF_C12_KEEP") == "" {
 		defer env.Cleanup()
@@ -505,6 +579,39 @@ func runCase(run *evid.Run, idx int) *caseCtx {
 		if c.migrate(g.Dir, args...) {
 			c.judgeOp(oldV, loadView(env, g.Dir), o)
 		}
+	case "midway-include", "midway-fixup":
+		mo := spec.Gen.Midway
+		run.Count("midway_histories", 1)
+		run.Count("midway_pre_lfs_commits", int64(mo.Pre))
+		run.Count("midway_mistakes_raw_although_tracked", int64(mo.Mistakes))
+		o1 := op{Kind: "import", Sel: spec.Sel}
+		args := []string{"import", "--yes"}
+		if spec.Mode == "midway-fixup" {
+			o1 = op{Kind: "import", Fixup: true}
+			args = append(args, "--fixup")
+		} else {
+			args = append(args, selArgs(spec.Sel)...)
+		}
+		refArgs := c.midwayRefArgs(&o1)
+		c.pathTrig = spec.Trigger
+		if !c.migrate(g.Dir, append(args, refArgs...)...) {
+			return c
+		}
+		mid := c.copyRepo(g.Dir, "mid")
+		midV := loadView(env, mid)
+		j1 := c.judgeOp(oldV, midV, o1)
+		for o, n := range j1.fwd {
+			c.extra[n] = g.LabelsOf(o)
+		}
+		// export of the same selection over the same refs
+		o2 := op{Kind: "export", Sel: spec.Sel, Everything: o1.Everything, IncludeRefs: o1.IncludeRefs}
+		c.pathTrig = "lfs-adopted-midway/export"
+		if !c.migrate(g.Dir, append(append([]string{"export", "--yes"}, selArgs(spec.Sel)...), refArgs...)...) {
+			return c
+		}
+		finV := loadView(env, g.Dir)
+		j2 := c.judgeOp(midV, finV, o2)
+		c.roundTrip(oldV, finV, j1.fwd, j2.fwd, spec.Sel)
 	case "fixup-after-export":
 		// The two preparatory commands are judged by other modes; here only the final --fixup is.
 		if !c.migrate(g.Dir, "import", "--yes", "--everything", "--include=*.dat") {
@@ -574,7 +681,7 @@ func main() {
 	if os.Getenv("VERIF_C12_KEEP") == "" {
 		defer sbx.RemoveBase()
 	}
-	run.Rule = "seeded repositories built with git plumbing (linear, branching, 2-parent and octopus merges, orphan roots, lightweight / annotated / tag-of-tag tags, symlinks and executables whose names match the selections, empty files, gitlinks, nested .gitattributes, *.bin files already in LFS through the clean filter, raw files under LFS attributes, distinct author/committer identities, dates and zones, multi-line messages, one exotic commit feature in a third of the cases) x one migrate command: import --include/--exclude (forms *.ext, dir/*.ext, exact path, dir/**), import --above, import (all files), import --fixup (attribute variants), import --no-rewrite, export --include/--exclude, export after import; ref selection in {--everything, current branch, current branch minus remote refs, --include-ref/--exclude-ref, positional branches}. Class = (mode, ref selection, pattern forms, special coordinate)."
+	run.Rule = "seeded repositories built with git plumbing (linear, branching, 2-parent and octopus merges, orphan roots, lightweight / annotated / tag-of-tag tags, symlinks and executables whose names match the selections, empty files, gitlinks, nested .gitattributes, *.bin files already in LFS through the clean filter, raw files under LFS attributes, distinct author/committer identities, dates and zones, multi-line messages, one exotic commit feature in a third of the cases) x one migrate command: import --include/--exclude (forms *.ext, dir/*.ext, exact path, dir/**), import --above, import (all files), import --fixup (attribute variants), import --no-rewrite, export --include/--exclude, export after import; plus histories that adopt LFS midway (raw files first, then exactly the line `git lfs track <pattern>` writes and every matching file re-added through the clean filter, later commits already correct, files committed raw although tracked and repaired later, topic merge, legacy branch, tags) x {import --include=<pattern>, import --fixup} x {--everything, current branch, --include-ref} followed by export --include=<pattern>; ref selection in {--everything, current branch, current branch minus remote refs, --include-ref/--exclude-ref, positional branches}. Class = (mode, ref selection, pattern forms, special coordinate)."
 	run.Assumptions = []string{
 		"pattern semantics of --include/--exclude are those of .gitattributes (man page); only the forms *.ext, dir/*.ext, exact anchored path, dir/** are generated",
 		"the generator creates no pointer look-alikes and no non-canonical pointers; LFS objects of the original history are all in the local store",
@@ -582,7 +689,8 @@ func main() {
 		"export: an LFS object missing afterwards is judged only if no commit reachable from a remote-tracking ref references it (export ends with a prune)",
 		"git 2.39.5",
 	}
-	n := run.N(36, 240)
+	nBase = run.N(36, 240)
+	n := nBase + run.N(6, 40) // + "LFS adopted midway" cases
 	if os.Getenv("VERIF_C12_CASE") == "" {
 		run.SetMinEvaluations(n / 2)
 	}
